@@ -25,8 +25,7 @@ var loopPolicies = map[string]loopPolicy{
 		"not:empty(CPE)":        "one CPE per component: 2.3 wins over 2.2",
 		"empty-value":           "an empty CPE 2.3 value is indistinguishable from an absent one in CycloneDX (omitempty) and must not erase a CPE 2.2"}},
 	"serializers.clearAutoRefs/*[]cyclonedx.Component": {skips: map[string]string{
-		"not:predicate(strings.HasPrefix)": "only generated references are erased",
-		"not:predicate(strings.Contains)":  "only generated references flagged auto are erased"}},
+		"*": "which references are erased is decided by folding the eraser's own decision on sample identifiers (constant-agreement:cdx-auto-ref#<sample>), whatever string functions spell it"}},
 	"serializers.(*CDX).dependencies/To": {skips: map[string]string{"dedupe": "a dependency target is listed once per edge; the key is the target id itself"}},
 	// --- CycloneDX reader ---
 	"unserializers.(*CDX).componentToNode/Hashes":                            {skips: map[string]string{"dedupe": "the model holds one value per hash algorithm; the key is the algorithm number"}},
